@@ -4,12 +4,14 @@ package loop
 
 import (
 	"bytes"
+	"errors"
 	"fmt"
 	"strings"
 	"syscall"
 	"testing"
 
 	"github.com/talostrading/sonic"
+	"github.com/talostrading/sonic/sonicerrors"
 	"pgregory.net/rapid"
 	"verif/internal/evid"
 	"verif/internal/known"
@@ -577,6 +579,51 @@ func TestC14_DeferredFromInsideAChain(t *testing.T) {
 						break
 					}
 				}
+			}
+			// cancelled: the side operation is already waiting in the poller when the chain starts, and the callback at
+			// depth `at` cancels it (as a websocket client dropping its transport from a message handler does); its
+			// callback then runs synchronously on top of the chain's frames.
+			cancelled := rapid.IntRange(0, 2).Draw(rt, "cancelFromChain") == 0
+			var sideErr error
+			issue := func() {
+				buf := make([]byte, 3000)
+				cb := func(err error, n int) { sideErr = err; sideCb(err, n) }
+				switch kind {
+				case "write":
+					b.AsyncWrite(buf, cb)
+				case "writeAll":
+					b.AsyncWriteAll(buf, cb)
+				case "read":
+					b.AsyncRead(buf[:8], cb)
+				default:
+					b.AsyncReadAll(buf[:8], cb)
+				}
+				if sideCalls != 0 {
+					rt.Fatalf("INFRA: the side %s completed inline", kind)
+				}
+			}
+			if cancelled {
+				issue()
+				n := rapid.IntRange(at, 40).Draw(rt, "len")
+				got := chain(n, at, func() {
+					b.Cancel()
+					if sideCalls != 1 || !errors.Is(sideErr, sonicerrors.ErrCancelled) {
+						rt.Fatalf("Cancel from depth %d: the pending %s completed %d times with %v; trace=%v", at, kind, sideCalls, sideErr, trace)
+					}
+				})
+				trace = append(trace, fmt.Sprintf("episode %d: pending side %s cancelled at depth %d of a %d-link chain (%d inline)", e, kind, at, n, got))
+				unwound("after a chain that cancelled another object's pending operation")
+				if got != min(n, ref) {
+					rt.Fatalf("a %d-link chain whose callback at depth %d cancelled another object's pending %s got %d inline completions; a plain chain gets %d; trace=%v", n, at, kind, got, min(n, ref), trace)
+				}
+				_ = sysx.ReadSome(bp, 1<<20)
+				again := chain(40, -1, nil)
+				trace = append(trace, fmt.Sprintf("chain afterwards: %d of 40 inline", again))
+				if again != ref {
+					rt.Fatalf("a 40-link chain gets %d inline completions now, it got %d before a pending operation was cancelled from depth %d; trace=%v", again, ref, at, trace)
+				}
+				unwound("after the follow-up chain")
+				continue
 			}
 			side := func() {
 				buf := make([]byte, 3000)
